@@ -16,7 +16,7 @@ KEY = {"self", "super", "crate", "true", "false", "mut", "ref", "match", "if", "
 
 def check():
     env = dict(os.environ, CARGO_NET_OFFLINE="true", RUSTFLAGS="-Awarnings")
-    for feats in (["--features", "serialize,encoding,async-tokio,overlapped-lists"], [], ["--features", "serialize"]):
+    for feats in (["--features", "serialize,encoding,async-tokio,overlapped-lists,serde-types"], [], ["--features", "serialize"]):
         p = subprocess.run(["cargo", "check", "--offline", "--lib", "--quiet"] + feats, cwd=W, env=env, capture_output=True, text=True)
         if p.returncode != 0:
             return False
